@@ -26,8 +26,10 @@ var c38Alphabets = [][]byte{
 }
 
 type c38Pool struct {
-	alpha []byte
-	keys  [][]byte
+	alpha   []byte
+	keys    [][]byte
+	last    string
+	hasLast bool
 }
 
 func c38Key(r *vhRng, alpha []byte, maxLen int) []byte {
@@ -119,8 +121,19 @@ func c38Upper(r *vhRng, s string) string {
 	return string(b)
 }
 
-// prefix request string: mostly "0x"+hex, plus the malformed / unusual spellings
+// prefix request string: mostly "0x"+hex, plus the malformed / unusual spellings; one time in
+// three the prefix of the previous query again (the same listing asked twice, possibly of a
+// state that changed in between)
 func (p *c38Pool) prefixStr(r *vhRng) string {
+	if p.hasLast && r.Chance(1, 3) {
+		return p.last
+	}
+	p.last = p.prefixStr1(r)
+	p.hasLast = true
+	return p.last
+}
+
+func (p *c38Pool) prefixStr1(r *vhRng) string {
 	pre := p.prefix(r)
 	s := fmt.Sprintf("0x%x", pre)
 	switch r.Intn(24) {
@@ -250,9 +263,11 @@ func c38Gen(r *vhRng) string {
 		put(p.keys[i])
 	}
 	nq := 1 + r.Intn(6)
+	commits := 1 // the genesis state
+	dirty := burst > 0
 	for q := 0; q < nq; q++ {
 		// now and then change the state between two queries
-		for r.Chance(1, 4) {
+		for r.Chance(1, 3) {
 			k := p.key(r)
 			if stored[string(k)] && r.Chance(1, 2) {
 				ops = append(ops, "del "+vhHex(k))
@@ -260,8 +275,22 @@ func c38Gen(r *vhRng) string {
 			} else {
 				put(k)
 			}
+			dirty = true
+		}
+		if r.Chance(1, 6) {
+			// an earlier (or, rarely, a not yet existing) state by its index
+			ix := r.Intn(commits)
+			if r.Chance(1, 10) {
+				ix = commits + r.Intn(2)
+			}
+			ops = append(ops, fmt.Sprintf("at %d %s", ix, p.query(r, len(stored))))
+			continue
 		}
 		ops = append(ops, p.query(r, len(stored)))
+		if dirty {
+			commits++
+			dirty = false
+		}
 	}
 	return fmt.Sprintf("%d %s %s|%s", ver, mode, addr, strings.Join(ops, ";"))
 }
